@@ -177,4 +177,50 @@ theorem sum_map_affine (s t : Int) (xs : List Int) : (xs.map fun x => s * (x - t
     rw [this, Int.mul_add]
     omega
 
+theorem sum_eq_zero_of_all_zero (l : List Int) (h : ∀ x ∈ l, x = 0) : l.sum = 0 := by
+  induction l with
+  | nil => rfl
+  | cons x xs ih =>
+    simp only [List.sum_cons]
+    rw [h x (by simp), ih (fun y hy => h y (List.mem_cons_of_mem _ hy))]; rfl
+
+/-- pointwise description of `subtractBaseline` -/
+theorem subtractBaseline_get (r : Record) (bl : Q) (flip : Bool) (j : Nat) (hl : r.length ≤ r.data.length) :
+    (subtractBaseline r bl flip).data[j]? =
+      if j < r.length then (r.data[j]?).map (fun x => (if flip then -1 else 1) * (x - bl.trunc)) else r.data[j]? := by
+  simp only [subtractBaseline, List.getElem?_append, List.length_map, List.length_take, List.getElem?_map,
+    List.getElem?_take, List.getElem?_drop]
+  have : min r.length r.data.length = r.length := by omega
+  rw [this]
+  split
+  · rfl
+  · congr 1; omega
+
+/-- for a non-negative baseline, `int(bl)` is the floor and `int(bl) + (bl mod 1) = bl` -/
+theorem trunc_add_frac (bl : Q) (h : 0 ≤ bl.num) : bl.trunc * (bl.den : Int) + bl.fracNum = bl.num := by
+  unfold Q.trunc Q.fracNum
+  rw [Int.tdiv_eq_ediv_of_nonneg h]
+  have := Int.mul_ediv_add_emod bl.num bl.den
+  rw [Int.mul_comm] at this
+  exact this
+
+/-- **flipped, baselined record: `Σ data + length·frac = Σ_{j<length} (baseline − raw_j)`**, over the denominator `d` -/
+theorem baselined_sum (r : Record) (bl : Q) (hnum : 0 ≤ bl.num) (hl : r.length ≤ r.data.length)
+    (hpad : ∀ x ∈ r.data.drop r.length, x = 0) :
+    (subtractBaseline r bl true).data.sum * (bl.den : Int) + bl.fracNum * (r.length : Int)
+      = (r.length : Int) * bl.num - (r.data.take r.length).sum * (bl.den : Int) := by
+  have htf := trunc_add_frac bl hnum
+  simp only [subtractBaseline, ↓reduceIte, List.sum_append, sum_eq_zero_of_all_zero _ hpad, Int.add_zero]
+  rw [sum_map_affine (-1) bl.trunc (r.data.take r.length)]
+  have hlen : ((r.data.take r.length).length : Int) = r.length := by
+    simp only [List.length_take]; omega
+  rw [hlen]
+  generalize (r.data.take r.length).sum = S
+  generalize bl.trunc = T at *
+  generalize bl.fracNum = F at *
+  generalize (bl.den : Int) = D at *
+  generalize (r.length : Int) = L
+  rw [← htf]
+  grind
+
 end Strax.Pulse
